@@ -64,6 +64,7 @@ def gen_case(ci, labels, perm, kind, auto):
         lines.append("        let vec = %s; let s = S::from(&vec); let s = &s; let vec = &vec;" % ctor)
     leaves = list(itertools.product(*[range(1, len(l["vals"]) + 1) for l in labels]))
     expected = []
+    pushes = []
     any_enum = any(l["enum"] for l in labels)
     for L, p in enumerate(leaves):
         forms = []
@@ -83,7 +84,9 @@ def gen_case(ci, labels, perm, kind, auto):
             amt = (L + 1) * 10 + f
             total += amt
             lines.append("        %s%s;" % (acc, update(kind, amt)))
-        expected.append({"labels": {"l%d" % i: value_of(i, j, labels[i - 1]) for i, j in enumerate(p, 1)}, "total": total, "n": len(forms)})
+            pushes.append("%s%s;" % (acc, update(kind, amt)))
+        mult = 2 if auto else 1      # auto-flush handles are also driven from a second thread (each thread has its own local metrics)
+        expected.append({"labels": {"l%d" % i: value_of(i, j, labels[i - 1]) for i, j in enumerate(p, 1)}, "total": total * mult, "n": len(forms) * mult})
     lines.append("        let mut none_ok = true;")
     if not auto:
         lines.append('        none_ok &= s.try_get("__undeclared__").is_none();')
@@ -92,13 +95,19 @@ def gen_case(ci, labels, perm, kind, auto):
         if n >= 2:
             lines.append('        none_ok &= s.f_1_1.try_get("__undeclared__").is_none();')
             lines.append('        none_ok &= s.f_1_1.try_get("%s").is_none();' % value_of(1, 1, labels[0]))
+    lines.append("        #[allow(unused_mut)] let mut mid: Vec<serde_json::Value> = vec![];")
+    if auto:
+        # the same accessor paths from a second thread, flushed there: its updates must arrive through ITS thread-local metrics,
+        # i.e. be visible after ITS flush while the first thread's updates are still pending
+        lines.append("        std::thread::spawn(|| { let s: &S = &TLS; %s s.flush(); }).join().unwrap();" % " ".join(pushes))
+        lines.append("        for mf in prometheus::core::Collector::collect(vec) { for m in mf.get_metric() { mid.push(crate::pm::metric_json(m, mf.get_field_type())); } }")
     if kind.startswith("Local"):
         lines.append("        s.flush();")
     lines.append("        let mut out = vec![];")
     lines.append("        for mf in prometheus::core::Collector::collect(vec) { for m in mf.get_metric() {")
     lines.append("            out.push(crate::pm::metric_json(m, mf.get_field_type()));")
     lines.append("        } }")
-    lines.append('        serde_json::json!({"children": out, "none_ok": none_ok})')
+    lines.append('        serde_json::json!({"children": out, "children_mid": mid, "none_ok": none_ok})')
     lines.append("    }")
     lines.append("}")
     return "\n".join(lines), expected
@@ -153,15 +162,26 @@ def run(ctx):
         if "panic" in x:
             ctx.violation("panic", "%s: %s" % (desc, x["panic"][:300]), rp)
             continue
-        got = {}
         hist = "Histogram" in c["kind"]
-        for m in x["ok"]["children"]:
-            key = tuple(sorted(map(tuple, m["labels"])))
-            if hist:
-                got[key] = (m["hist"]["sum"].get("i"), m["hist"]["count"])
-            else:
-                got[key] = ((m["gauge"] if "Gauge" in c["kind"] else m["counter"]).get("i"), None)
+
+        def children(lst):
+            g = {}
+            for m in lst:
+                key = tuple(sorted(map(tuple, m["labels"])))
+                if hist:
+                    g[key] = (m["hist"]["sum"].get("i"), m["hist"]["count"])
+                else:
+                    g[key] = ((m["gauge"] if "Gauge" in c["kind"] else m["counter"]).get("i"), None)
+            return g
+        got = children(x["ok"]["children"])
         exp = {tuple(sorted(e["labels"].items())): (e["total"], e["n"] if hist else None) for e in c["expected"]}
+        if c["auto"]:
+            mid = children(x["ok"]["children_mid"])
+            expmid = {k: (v[0] // 2, v[1] // 2 if hist else None) for k, v in exp.items()}
+            if mid != expmid:
+                wrongm = [(k, expmid.get(k), mid.get(k)) for k in set(expmid) | set(mid) if expmid.get(k) != mid.get(k)]
+                ctx.violation("auto-flush-thread-locality", "%s: after a second thread pushed through every accessor and flushed (first thread not yet flushed) the vector holds (labels, expected, got) %s" % (desc, wrongm[:3]), rp)
+                continue
         nleaves += len(exp); nacc += sum(e["n"] for e in c["expected"])
         if got != exp:
             missing = [k for k in exp if k not in got]
